@@ -260,7 +260,8 @@ func runSequence(base *Scenario, faults []*Fault) ([]rec.Event, bool) {
 	r := &Recorder{}
 	st := Setup(base, r)
 	hung := false
-	for i, f := range append(faults, nil) {
+	// two clean sessions at the end: a message deferred once ("once=") in the first is delivered in the second
+	for i, f := range append(append([]*Fault{}, faults...), nil, nil) {
 		sc := cloneScenario(base)
 		sc.ID = base.ID*16 + i
 		sc.Fault = f
@@ -300,9 +301,16 @@ func c02Cores(rng *rand.Rand) []*Scenario {
 	mk(2, 1, map[string]int{"dedup": 4, "=": 1, "-": 1}, "A", "free", "rand")
 	mk(2, 1, dd, "B", "bfirst", "all")
 	mk(6, 0, dd, "B", "free", "all")
+	// synchronous link (a write returns only when consumed, like net.Pipe) with several messages per block
+	mk(3, 0, dd, "B", "sync", "all")
+	mk(2, 2, map[string]int{"dedup": 2, "once=": 1}, "A", "sync", "rand")
 	// the real directory mailbox on both sides (P2P routing needs sole recipients)
-	for _, c := range [][2]int{{1, 1}, {2, 0}} {
-		mk(c[0], c[1], dd, "A", "free", "all")
+	for ci, c := range [][2]int{{1, 1}, {2, 0}, {3, 0}} {
+		pol := dd
+		if ci == 2 {
+			pol = map[string]int{"dedup": 1, "once=": 1}
+		}
+		mk(c[0], c[1], pol, "A", "free", "all")
 		sc := out[len(out)-1]
 		sc.Handler = "dir"
 		for _, side := range []string{"A", "B"} {
@@ -420,7 +428,7 @@ func MainC02(args []string) int {
 	keys := map[string]bool{}
 	for i, it := range items {
 		w.Write(map[string]interface{}{"item": i + 1}, results[i].evs)
-		sessions += len(it.faults) + 1
+		sessions += len(it.faults) + 2
 		fb, _ := json.Marshal(it.faults)
 		k := it.base.AbstractKey() + string(fb)
 		if !keys[k] && movedMessages(results[i].evs) > 0 {
@@ -556,8 +564,8 @@ func MainC04(args []string) int {
 				add(&Fault{AltKind: "ins", At: o, Val: rng.Intn(256)}, "ins")
 			}
 		}
-		// always the structural bytes: SOH, length, the NULs, first STX and its length, EOT and the sum
-		for _, o := range []int{a, a + 1, dataStart - 1, dataStart, dataStart + 1, b - 2, b - 1} {
+		// always the structural bytes: SOH, length, offset digit, the NULs, first STX and its length, EOT and the sum
+		for _, o := range []int{a, a + 1, dataStart - 2, dataStart - 1, dataStart, dataStart + 1, b - 2, b - 1} {
 			for _, v := range []int{0x01, 0x80, 0xff} {
 				add(&Fault{AltKind: "sub", At: o, Val: v}, "sub-struct")
 			}
@@ -574,6 +582,32 @@ func MainC04(args []string) int {
 				dataPos = append(dataPos, pos+2+k)
 			}
 			pos += 2 + n
+		}
+		// targeted, sum-compensated changes of the payload's own header: CRC field (bytes 0,1) and size field (bytes 2..5)
+		// set to chosen values, the 8-bit sum repaired at another data position
+		if len(dataPos) > 16 {
+			targets := [][]int{{0, 0}, {0xff, 0xff}, {int(stream[dataPos[1]]), int(stream[dataPos[0]])}}
+			for _, tv := range targets {
+				for rep := 0; rep < 4; rep++ {
+					set := map[int]int{dataPos[0]: tv[0], dataPos[1]: tv[1]}
+					delta := int(stream[dataPos[0]]) + int(stream[dataPos[1]]) - tv[0] - tv[1]
+					cp := dataPos[6+rng.Intn(len(dataPos)-6)]
+					set[cp] = (int(stream[cp]) + delta) & 0xff
+					add(&Fault{AltKind: "set", Set: set}, "crc-field")
+				}
+			}
+			for _, sz := range []int{0, 1, size - 1, size + 1, size + 256, 0x7fffffff, -1} {
+				set := map[int]int{}
+				delta := 0
+				for k := 0; k < 4; k++ {
+					v := (sz >> (8 * k)) & 0xff
+					set[dataPos[2+k]] = v
+					delta += int(stream[dataPos[2+k]]) - v
+				}
+				cp := dataPos[6+rng.Intn(len(dataPos)-6)]
+				set[cp] = (int(stream[cp]) + delta) & 0xff
+				add(&Fault{AltKind: "set", Set: set}, "size-field")
+			}
 		}
 		for i := 0; i < *pairs && len(dataPos) > 1; i++ {
 			p1 := rng.Intn(len(dataPos) - 1)
